@@ -37,3 +37,11 @@ impl std::ops::Sub<Instant> for Instant {
         Duration::from_nanos(self.0.saturating_sub(other.0))
     }
 }
+
+impl std::ops::Add<Duration> for Instant {
+    type Output = Instant;
+
+    fn add(self, other: Duration) -> Instant {
+        Instant(self.0.saturating_add(other.as_nanos() as u64))
+    }
+}
